@@ -12,7 +12,8 @@ func init() {
 		ID: "C15",
 		Explanation: "Structural necessary conditions of 'paged iteration yields every row exactly once, in order, and then stops': R1 a next page is scheduled only when the response says has_more_pages and automatic paging is on, and PageState() turns automatic paging off; R2 the next-page query is a private copy of the current query made when the page arrives, carrying a copy of this response's paging state; " +
 			"R3 the fetched page is stored only inside the nextIter's sync.Once and fetchAsync only spawns fetch inside its own Once; R4 the consumers (MapScan, SliceMap, RowData-based helpers) reach rows only through Iter.Scan; Iter.Scan and Scanner.Next switch pages under `pos >= numRows && next != nil`, re-enter their own logic on the fetched page (so an empty page with more pages continues and a failed fetch surfaces as the error) and advance the position exactly once per delivered row." +
-			" R5 a consumer that drains the iterator with a Scan loop returns a nil error only after finding iter.err nil behind the loop.",
+			" R5 a consumer that drains the iterator with a Scan loop returns a nil error only after finding iter.err nil behind the loop." +
+			" R6 only the page-switching code (Scan, Scanner.Next, WillSwitchPage and their helpers) reads Iter.pos.",
 		NotDecided: "that every row is delivered exactly once across page boundaries for all page/row counts; the prefetch position arithmetic; races between prefetch and the consumer beyond the Once discipline.",
 		Rules: []*Rule{
 			{ID: "C15.R1", Floor: 3, Doc: "next page scheduled only under morePages() && !disableAutoPage; PageState disables auto paging", Run: c15r1},
